@@ -4,13 +4,14 @@ use crate::support::*;
 use educe::Educe;
 use core::cmp::Ordering;
 #[derive(Educe)]
-#[educe(PartialOrd, PartialEq, Eq)]
-pub enum T { B(#[educe(PartialOrd(rank = 4i64))] &'static u8, #[educe(PartialOrd(rank = -3))] Option<u8>) }
+#[repr(C)]
+#[educe(PartialOrd, Eq, PartialEq)]
+pub enum T { B, C() }
 
-pub fn values() -> Vec<T> { vec![T::B(&3u8, None), T::B(&3u8, Some(0)), T::B(&3u8, Some(255)), T::B(&200u8, None), T::B(&200u8, Some(0)), T::B(&200u8, Some(255))] }
-pub fn show(x: &T) -> String { #[allow(unused_variables)] match x { T::B(p0, p1) => format!("B({},{})", sv(p0), sv(p1)) } }
-pub fn o_disc(x: &T) -> i128 { match x { T::B(_, _) => 0 } }
-pub fn o_pcmp(a: &T, b: &T) -> Option<Ordering> { match (a, b) { (T::B(a0, a1), T::B(b0, b1)) => { match ::core::cmp::PartialOrd::partial_cmp(a1, b1) { Some(Ordering::Equal) => (), x => return x } match ::core::cmp::PartialOrd::partial_cmp(a0, b0) { Some(Ordering::Equal) => (), x => return x } Some(Ordering::Equal) } } }
+pub fn values() -> Vec<T> { vec![T::B, T::C()] }
+pub fn show(x: &T) -> String { #[allow(unused_variables)] match x { T::B => format!("B()"), T::C() => format!("C()") } }
+pub fn o_disc(x: &T) -> i128 { match x { T::B => 0, T::C() => 1 } }
+pub fn o_pcmp(a: &T, b: &T) -> Option<Ordering> { match (a, b) { (T::B, T::B) => {  Some(Ordering::Equal) }, (T::C(), T::C()) => {  Some(Ordering::Equal) }, _ => Some(o_disc(a).cmp(&o_disc(b))) } }
 #[repr(C)] pub struct Wrap { pub pre: u8, pub x: T, pub post: [u8; 9] }
 pub fn wrap(i: usize, n: u8) -> Wrap { Wrap { pre: n, x: values().swap_remove(i), post: [n; 9] } }
 pub fn run(out: &mut Out) { let vs = values(); for (i, a) in vs.iter().enumerate() { for (j, b) in vs.iter().enumerate() { let e = o_pcmp(a, b); let g = ::core::cmp::PartialOrd::partial_cmp(a, b); out.check(g == e, "ordlayout_14", "partial_cmp", || format!("partial_cmp({}, {}) = {:?} expected {:?}", show(a), show(b), g, e)); for n in [0u8, 1, 0x7f, 0x80, 0xff] { let wa = wrap(i, n); let wb = wrap(j, !n); let g = ::core::cmp::PartialOrd::partial_cmp(&wa.x, &wb.x); let e = o_pcmp(a, b); out.check(g == e, "ordlayout_14", "cmp_neighbours", || format!("cmp({}, {}) with neighbour bytes {} = {:?} expected {:?}", show(a), show(b), n, g, e)); } } } }
